@@ -85,6 +85,33 @@ theorem safe_sound (k : Nat) (p : Prog) (s s' : St) (a0 : Taint) (ret : Nat)
     · have := henv ret b hb hlt; simp [this] at hsafe
     · exact Nat.le_of_not_lt hlt
 
+/-- **soundness at the wrapper level**: a program accepted by `safeAll` never writes an input buffer -- the cells,
+    the coordinates or the attrs of any parameter -- and none of the slots of the returned object (cells,
+    coordinates, attrs) points into one, for every branch taken, every iteration count and every run-time
+    resolution of the layout-dependent views and of the `maybe` components of the xarray primitives -/
+theorem safeAll_sound (k : Nat) (p : Prog) (s s' : St) (a0 : Taint) (rets : List Nat)
+    (h : Rel k s a0) (hsafe : safeAll p a0 rets = true) (hx : Exec p s s') :
+    (∀ b, b < k → s'.dirty b = false) ∧ (∀ r ∈ rets, ∀ b, s'.env r = some b → k ≤ b) := by
+  unfold safeAll at hsafe
+  cases hc : acheck p a0 with
+  | none => simp [hc] at hsafe
+  | some l =>
+    simp only [hc, List.all_eq_true] at hsafe
+    obtain ⟨_, henv, hd⟩ := acheck_sound hx h hc
+    refine ⟨hd, fun r hr b hb => ?_⟩
+    by_cases hlt : b < k
+    · have := henv r b hb hlt
+      have h2 := hsafe r hr
+      simp [this] at h2
+    · exact Nat.le_of_not_lt hlt
+
+/-- one xarray primitive, stated by itself: after `x = prim(…)` a component of `x` lies in an input buffer
+    only if its mode lets it share (`shallow` / `maybe`) and its source was tainted -/
+theorem build_step_sound {k : Nat} {s s' : St} {l : Taint} (a b c : Part)
+    (h : Rel k s l) (hx : OpStep (.build a b c) s s') :
+    Rel k s' (((l.bindPart l a).bindPart l b).bindPart l c) :=
+  step_rel hx h rfl
+
 /-- the weaker check used for the documented views (trim, crop): still no input is written -/
 theorem noInputWrite_sound (k : Nat) (p : Prog) (s s' : St) (a0 : Taint)
     (h : Rel k s a0) (hok : noInputWrite p a0 = true) (hx : Exec p s s') :
@@ -111,16 +138,29 @@ theorem public_inputs_never_written (e : Entry) (he : e ∈ allEntries) (s' : St
   unfold entryOk at hok
   split at hok
   · exact noInputWrite_sound e.k e.prog _ s' _ (rel_init e.k) hok hx
-  · exact (safe_sound e.k e.prog _ s' _ e.ret (rel_init e.k) hok hx).1
+  · exact (safeAll_sound e.k e.prog _ s' _ e.ret.slots (rel_init e.k) hok hx).1
 
 /-- **the result of a public function shares no buffer with an input**, unless the contract table
     documents a view (trim, crop, custom_kernel, get_dataarray_resolution) -/
 theorem public_output_fresh (e : Entry) (he : e ∈ allEntries) (hc : e.contract.retMayAlias = false)
-    (s' : St) (hx : Exec e.prog (init e.k) s') : ∀ b, s'.env e.ret = some b → e.k ≤ b := by
+    (s' : St) (hx : Exec e.prog (init e.k) s') :
+    (∀ b, s'.env e.ret.data = some b → e.k ≤ b) ∧ (∀ b, s'.env e.ret.coords = some b → e.k ≤ b) ∧
+    (∀ b, s'.env e.ret.attrs = some b → e.k ≤ b) := by
   have hok : entryOk e = true := List.all_eq_true.mp all_public_conform e he
   unfold entryOk at hok
   simp only [hc, Bool.false_eq_true, if_false] at hok
-  exact (safe_sound e.k e.prog _ s' _ e.ret (rel_init e.k) hok hx).2
+  have h := (safeAll_sound e.k e.prog _ s' _ e.ret.slots (rel_init e.k) hok hx).2
+  exact ⟨h _ (by simp [Obj.slots]), h _ (by simp [Obj.slots]), h _ (by simp [Obj.slots])⟩
+
+/-- every parameter of every public function contributes its three components to the input buffers the two
+    theorems above speak about: the `k` of an entry is three times its number of parameters, and the buffers are
+    named `p`, … `p.coords`, … `p.attrs`, … -/
+theorem inputs_are_components :
+    allEntries.all (fun e => e.k == e.params.length && e.k % 3 == 0 &&
+      (List.range (e.k / 3)).all (fun i =>
+        e.params.getD (e.k / 3 + i) "" == e.params.getD i "" ++ ".coords" &&
+        e.params.getD (2 * (e.k / 3) + i) "" == e.params.getD i "" ++ ".attrs")) = true := by
+  decide +kernel
 
 /-- the only functions allowed to return a view are the documented ones -/
 theorem views_are_documented :
@@ -166,7 +206,7 @@ theorem local_safe : [entry_local_cell_stats, entry_local_combine, entry_local_l
     `ravel`, kernels writing a parameter, dict / list elements, loop-carried aliases, early returns, closures,
     `out=`, `a, b = b, a`, …): every bad pattern is rejected and every harmless one accepted -/
 theorem translator_selftest :
-    selftest.all (fun t => safe t.2.1 (inputs t.2.2.1) t.2.2.2.1 == t.2.2.2.2) = true := by decide +kernel
+    selftest.all (fun t => safeAll t.2.1 (inputs t.2.2.1) t.2.2.2.1 == t.2.2.2.2) = true := by decide +kernel
 
 /-- nothing in any generated program was left unclassified by the translator -/
 theorem no_unknown_construct : allEntries.all (fun e => !e.prog.hasUnknown) = true := by decide +kernel
